@@ -119,7 +119,9 @@ type chunkPattern struct {
 	EndCut   bool      // at the end of the frame (false: coalesced with the start of the next frame)
 }
 
-func (p chunkPattern) key() string { return fmt.Sprintf("%v|%v|%v|%v", p.HdrCut, p.AfterHdr, p.Body, p.EndCut) }
+func (p chunkPattern) key() string {
+	return fmt.Sprintf("%v|%v|%v|%v", p.HdrCut, p.AfterHdr, p.Body, p.EndCut)
+}
 
 // patternsFromVectors turns TLC's (frames, chunking) vectors into per-frame cut patterns.
 func patternsFromVectors(vecs []framerVec) []chunkPattern {
@@ -161,7 +163,7 @@ func patternsFromVectors(vecs []framerVec) []chunkPattern {
 }
 
 type relayStats struct {
-	mu                                           sync.Mutex
+	mu                                               sync.Mutex
 	Frames, HdrSplits, BodySplits, Coalesced, Writes int
 }
 
